@@ -8,11 +8,17 @@
  steps: TRUE = as the code is today (downstream sink created under the read
  lock; sink closed before the socket is released); FALSE = the two orders the
  pinned tree had, kept so that TLC can exhibit why they are unsafe.
+ FixCloseLock: TRUE = ReloadableSink.Close calls the downstream Close and clears
+ the slot under the read lock (today's code); FALSE = the slot is cleared under
+ the lock and the downstream Close - the final flush, which may wait for busy
+ pipelines - runs after the lock is released (a plausible lock-scope reduction;
+ a reload can then shut the generation down in between).  The three FALSE
+ settings are negative controls: TLC has to refute each of them.
  Safe: no Accept/Tick/Close reaches a sink of a generation that was shut down,
  no nil sink, one user per sink, no slot taken while occupied.
  ***************************************************************************)
 EXTENDS Naturals, FiniteSets, TLC
-CONSTANTS Conns, Fds, MaxReload, MaxAccept, FixNewSink, FixCloseOrder
+CONSTANTS Conns, Fds, MaxReload, MaxAccept, FixNewSink, FixCloseOrder, FixCloseLock
 NIL == [gen |-> 0, owner |-> 0]
 VARIABLES gen, alive, slots, sock, pc, fd, mine, nacc, rpc, readers, writer, nrel, bad
 vars == <<gen, alive, slots, sock, pc, fd, mine, nacc, rpc, readers, writer, nrel, bad>>
@@ -61,10 +67,21 @@ CloseSocket(c) ==     \* closer goroutine: conn.Close() releases the socket numb
 FinalFlush(c) ==      \* recvChan.Flush(): Accept/Tick through the slot
   /\ pc[c] = "end2" /\ ~writer /\ Use(c, "flush") /\ pc' = [pc EXCEPT ![c] = "end3"]
   /\ UNCHANGED <<gen, alive, slots, sock, fd, mine, nacc, rpc, readers, writer, nrel>>
-SinkClose(c) ==       \* deferred recvChan.Close(): (*ptr).Close(); *ptr = nil
-  /\ pc[c] = "end3" /\ ~writer /\ Use(c, "close")
+SinkClose(c) ==       \* deferred recvChan.Close(): RLock; (*ptr).Close(); *ptr = nil; RUnlock
+  /\ FixCloseLock /\ pc[c] = "end3" /\ ~writer /\ Use(c, "close")
   /\ slots' = [slots EXCEPT ![fd[c]] = NIL] /\ pc' = [pc EXCEPT ![c] = "done"]
   /\ UNCHANGED <<gen, alive, sock, fd, mine, nacc, rpc, readers, writer, nrel>>
+SinkCloseTake(c) ==   \* variant: RLock; d := *ptr; *ptr = nil; RUnlock  (the sink taken out is remembered in mine[c])
+  /\ ~FixCloseLock /\ pc[c] = "end3" /\ ~writer
+  /\ mine' = [mine EXCEPT ![c] = slots[fd[c]]]
+  /\ slots' = [slots EXCEPT ![fd[c]] = NIL] /\ pc' = [pc EXCEPT ![c] = "end4"]
+  /\ UNCHANGED <<gen, alive, sock, fd, nacc, rpc, readers, writer, nrel, bad>>
+SinkCloseOutside(c) == \* variant: d.Close() without the lock: the final flush goes to whatever generation d belongs to
+  /\ pc[c] = "end4"
+  /\ bad' = bad \cup (IF mine[c] = NIL THEN {<<"nil", "close">>} ELSE {})
+                \cup (IF mine[c] # NIL /\ ~alive[mine[c].gen] THEN {<<"deadgen", "close">>} ELSE {})
+  /\ pc' = [pc EXCEPT ![c] = "done"]
+  /\ UNCHANGED <<gen, alive, slots, sock, fd, mine, nacc, rpc, readers, writer, nrel>>
 Reopen(c) ==          \* the same client connects again later
   /\ pc[c] = "done" /\ sock[fd[c]] # c /\ pc' = [pc EXCEPT ![c] = "idle"] /\ fd' = [fd EXCEPT ![c] = 0] /\ nacc' = [nacc EXCEPT ![c] = 0]
   /\ UNCHANGED <<gen, alive, slots, sock, mine, rpc, readers, writer, nrel, bad>>
@@ -83,7 +100,7 @@ RUnlockW  == rpc = "unlock" /\ writer' = FALSE /\ rpc' = "idle"
              /\ UNCHANGED <<gen, alive, slots, sock, pc, fd, mine, nacc, readers, nrel, bad>>
 
 Next == \/ \E c \in Conns : \/ (\E f \in Fds : AcceptConn(c, f)) \/ NewSinkCreate(c) \/ NewSinkLock(c) \/ NewSinkStore(c)
-                            \/ AcceptRec(c) \/ ReadEnd(c) \/ CloseSocket(c) \/ FinalFlush(c) \/ SinkClose(c) \/ Reopen(c)
+                            \/ AcceptRec(c) \/ ReadEnd(c) \/ CloseSocket(c) \/ FinalFlush(c) \/ SinkClose(c) \/ SinkCloseTake(c) \/ SinkCloseOutside(c) \/ Reopen(c)
         \/ RInitiate \/ RLockW \/ RShutdown \/ RRenew \/ RUnlockW
 Spec == Init /\ [][Next]_vars
 Safe == bad = {}
